@@ -1735,3 +1735,18 @@ theorem iinv_initial (hs : ∀ b ∈ bs0, b.steps = 0) (st0 : Storage) :
   ⟨rfl, fun _ _ hb _ => ⟨hb, rfl⟩, fun _ b hb hne => absurd (hs b (List.mem_of_getElem? hb)) hne⟩
 
 end Edzed.Persist
+
+namespace Edzed.Persist
+
+/-! ## a storage that fails: without faults the functions are the ordinary ones -/
+
+theorem saveBlkF_nofault (s : Storage) (b : Blk) : saveBlkF {} s b = (saveBlk s b, false) := by
+  unfold saveBlkF saveBlk
+  cases b.persistent <;> cases getState b.kind b.dyn <;> simp
+
+theorem saveAllF_nofault (s : Storage) (bs : List Blk) : saveAllF {} s bs = (saveAll s bs, false) := by
+  induction bs generalizing s with
+  | nil => rfl
+  | cons b r ih => simp only [saveAllF, saveBlkF_nofault, ih, saveAll, List.foldl_cons]
+
+end Edzed.Persist
